@@ -92,6 +92,7 @@ type LendKeeper interface {
 	MsgCalculateBorrowInterest(ctx sdk.Context, borrowerAddr string, borrowID uint64) error
 	UpdateLendStats(ctx sdk.Context, AssetID, PoolID uint64, amount sdk.Int, inc bool)
 	DeleteLendForAddressByAsset(ctx sdk.Context, address string, lendingID uint64)
+	GetUserLendBorrowMapping(ctx sdk.Context, owner string, lendID uint64) (userMapping lendtypes.UserAssetLendBorrowMapping, found bool)
 	DeleteLend(ctx sdk.Context, id uint64)
 }
 
